@@ -142,6 +142,7 @@ pub fn c02() -> SchedCampaign {
                 Class::EstimateRewind,
                 Class::Finality,
                 Class::Commit,
+                Class::Mv,
             ],
             directors: obs::D_CLAIM_LOCK | obs::D_VALIDATE_SCAN | obs::D_EXEC_PUBLISH | obs::D_COORD | obs::D_ESTIMATE_REWIND,
         },
